@@ -239,6 +239,10 @@ def step (s : St) (field2 : Bool) (b0 b1 : Nat) : St :=
           match cmd with
           | .rcl | .ru _ | .rdc | .eoc => some false
           | .tr | .rtd => some true
+          -- EIA-608-B 7.7 / Annex B.7: EDM and ENM inside a Text Mode transmission "shall be acted upon as
+          -- appropriate for caption processing without terminating the Text Mode data stream": they address
+          -- the caption service of the data channel (field, channel bit), never a text service
+          | .edm | .enm => some false
           | _ => fs.cur.map (·.1)
         match cls with
         | none => setF s fs
